@@ -812,6 +812,11 @@ func checkDelivery(prop string, m *Model, v *Verdict) {
 							unsaid = true
 						}
 					}
+					// with max_alerts the payload lists a prefix only, while the log records
+					// the whole batch: "not listed so far" does not mean "unsaid"
+					if wh := m.webhook(k.Receiver, k.Integ); wh == nil || wh.MaxAlerts > 0 || first.Truncated > 0 || (prev != nil && prev.Truncated > 0) {
+						unsaid = false
+					}
 					if by < m.P.Horizon-time.Second && unsaid && !m.Disturbed(first.T-time.Second, by) &&
 						m.Throughout(first.T-c01Slack, by, cal, func(t Dur) bool {
 							for _, lk := range mem {
